@@ -1,8 +1,11 @@
 #!/usr/bin/env python3
 """development helper: run a seeding demo against /repo with the harness shims (compiled extensions, logging stubs)."""
-import runpy, sys
+import os, runpy, sys
 sys.path.insert(0, "/verif")
 from vlib import shims
 shims.install()
-sys.argv = [sys.argv[1]]
+# child interpreters started by the demo get the shims through vlib/site/sitecustomize.py
+os.environ["DV_DEMO_SHIMS"] = "1"
+os.environ["PYTHONPATH"] = "/verif/vlib/site:/verif:/repo"
+sys.argv = sys.argv[1:]
 runpy.run_path(sys.argv[0], run_name="__main__")
